@@ -350,6 +350,27 @@ def r9_partial_lookup_reports_the_link(ctx):
     return symlink_stack_discipline(ctx, "C12.R9")
 
 
+def r10_never_removes(ctx):
+    """Convergence: a mkdir_all that fails never takes back a directory it (or a racing caller that tolerated EEXIST)
+    created -- no unlink/rmdir/rename is reachable from mkdir_all or its closures."""
+    F = ctx.facts
+    out = []
+    bodies = [b for b in F.bodies if b.path == MK or b.path.startswith(MK + "::{closure")]
+    bad = []
+    for b in bodies:
+        for t in b.calls():
+            c = t.callee or ""
+            if c.startswith("syscalls::") and c.split("::")[1] in ("unlinkat", "renameat", "renameat2") or c.startswith("utils::dir::remove") or c.endswith("::remove_all") or c.endswith("::remove_dir") or c.endswith("::remove_file"):
+                bad.append(t)
+    if not bodies:
+        return [violated("C12.R10", "mkdir_all:never-removes", "", "mkdir_all not found (anchor drift)")]
+    if bad:
+        out.append(violated("C12.R10", "mkdir_all:never-removes", bad[0].where(), "mkdir_all removes/renames an entry (%s): a concurrent caller that saw EEXIST or already resolved the directory has reported success for a path that is then taken away" % bad[0].callee))
+    else:
+        out.append(holds("C12.R10", "mkdir_all:never-removes", bodies[0].where(), "no unlink/rmdir/rename in mkdir_all and its %d closures" % (len(bodies) - 1)))
+    return out
+
+
 RULES = [
     ("C12.R1", r1_mode_validation, 2, False),
     ("C12.R2", r2_creation_loop_inputs, 4, False),
@@ -360,4 +381,5 @@ RULES = [
     ("C12.R7", r7_refusals_in_loop, 2, False),
     ("C12.R8", r8_base_directory, 2, False),
     ("C12.R9", r9_partial_lookup_reports_the_link, 1, False),
+    ("C12.R10", r10_never_removes, 1, False),
 ]
